@@ -358,6 +358,52 @@ fn check_inplace(rep: &mut Report) {
             }
         }
     }
+    // long slices whose source is BLOCK-SPARSE: runs of exactly silent frames (aligned to 8 ... 128
+    // frames, leading / alternating / in the middle) between runs of signal, as a mixer sees them.
+    // An operation that skips or batches silent blocks must still land every frame where it belongs.
+    // (interpreter-sized selection under Miri)
+    let (ls, bss): (&[usize], &[usize]) = if cfg!(miri) { (&[130], &[64]) } else { (&[65, 128, 130, 200, 257, 1000], &[8, 16, 32, 64, 128]) };
+    for &l in ls {
+        for &bs in bss {
+            for phase in 0..3usize {
+                let silent = |i: usize| match phase {
+                    0 => (i / bs) % 2 == 0,
+                    1 => (i / bs) % 2 == 1,
+                    _ => (i / bs) == 1 || (i / bs) == 2,
+                };
+                let cs = format!("what=inplace;op=sparse;la={};lb={}", l, bs * 10 + phase);
+                {
+                    let mut a = mk_u(l, 0);
+                    let b: Vec<[i8; 3]> = (0..l).map(|i| if silent(i) { [0i8; 3] } else { <[i8; 3]>::from_fn(|c| i8::distinct((3 * i + c) as u64 + 9)) }).collect();
+                    let before = a.clone();
+                    let want: Vec<[u8; 3]> = before.iter().zip(&b).map(|(x, y)| x.add_amp(*y)).collect();
+                    let r = vmon::catch(|| dasp_slice::add_in_place(&mut a, &b));
+                    judge(rep, "add_in_place_block_sparse_source", l, l, r, &a, &before, &want, &cs);
+                }
+                {
+                    let mut a = mk_a(l, 0);
+                    let b: Vec<FA> = mk_a(l, 60).into_iter().enumerate().map(|(i, f)| if silent(i) { [0i16; 2] } else { f }).collect();
+                    let amp: FF = [0.5, -0.25];
+                    let before = a.clone();
+                    let want: Vec<FA> = before.iter().zip(&b).map(|(x, y)| x.add_amp(y.mul_amp(amp))).collect();
+                    let r = vmon::catch(|| dasp_slice::add_in_place_with_amp_per_channel(&mut a, &b, amp));
+                    judge(rep, "add_in_place_with_amp_block_sparse_source", l, l, r, &a, &before, &want, &cs);
+                    let mut a = mk_a(l, 0);
+                    let before = a.clone();
+                    let r = vmon::catch(|| dasp_slice::write(&mut a, &b));
+                    judge(rep, "write_block_sparse_source", l, l, r, &a, &before, &b, &cs);
+                    let mut a = mk_a(l, 0);
+                    let before = a.clone();
+                    let want: Vec<FA> = before.iter().zip(&b).map(|(x, y)| [x[0].wrapping_sub(y[1]), y[0]]).collect();
+                    let r = vmon::catch(|| dasp_slice::zip_map_in_place(&mut a, &b, |x: FA, y: FA| [x[0].wrapping_sub(y[1]), y[0]]));
+                    judge(rep, "zip_map_in_place_block_sparse_source", l, l, r, &a, &before, &want, &cs);
+                }
+                rep.eval(4);
+                rep.hit("block_sparse_long_slices");
+            }
+        }
+        rep.nontrivial(vmon::hash_combine(0x1b, l as u64));
+    }
 }
 
 fn judge<F: PartialEq + std::fmt::Debug>(rep: &mut Report, op: &str, la: usize, lb: usize, r: Result<(), String>, after: &[F], before: &[F], want: &[F], case: &str) {
@@ -623,6 +669,7 @@ fn main() {
                 huge_views(&mut rep, &lens);
             }
             rep.oblige("length_mismatch_refused_untouched", 1);
+            rep.oblige("block_sparse_long_slices", 1);
             check_inplace(&mut rep);
             rep.exhaustive(format!("every N in 1..=32 x every L in 0..={}N+{} x formats {{i8,i16,I24,f32,f64,u64}} x shared/mutable/boxed, all call routes; in-place ops for all length pairs <= 9", k, extra));
             rep.sample(J::obj().set("fmt", J::s("I24")).set("N", J::u(3)).set("L", J::u(7)).set("expect", J::s("None (3 does not divide 7); boxed: one dealloc of 28 bytes")));
